@@ -607,13 +607,43 @@ def nontrivial(spec, res):
 # ------------------------------------------------------------------------------------------------
 # translator hook: the table as Lean data + the totality obligation, re-checked against the source
 
+# finding classes of operations the SOURCE analysis finds inconsistent with their contract
+SOURCE_FINDING_CLASS = {
+    'surface_factory.poisson_patch': 'nutils-patch-mutates-operands',
+    'surface_factory.elasticity_patch': 'nutils-patch-mutates-operands',
+    'surface_factory.finitestrain_patch': 'nutils-patch-mutates-operands',
+    # the source analysis confirms the dynamic finding: TopologicalNode.__init__ does `self.obj = obj`
+    'SplineModel.__init__': 'splinemodel-retains-operand', 'SplineModel.add': 'splinemodel-retains-operand',
+    'ObjectCatalogue.add': 'splinemodel-retains-operand', 'ObjectCatalogue.lookup': 'splinemodel-retains-operand',
+    'ObjectCatalogue.__call__': 'splinemodel-retains-operand', 'ObjectCatalogue.__getitem__': 'splinemodel-retains-operand',
+}
+
+
+def source_effects(sp):
+    """Effect summaries inferred from the overlay sources the harness imports."""
+    import os
+    from . import _c11_effects as E
+    srcdir = os.path.dirname(os.path.abspath(sp.__file__))
+    effects = E.infer_all(srcdir, T.TABLE)
+    verdict = {n: E.consistent(T.BY_NAME[n].kind, e, T.BY_NAME[n].allow_view_return) for n, e in effects.items()}
+    return srcdir, effects, verdict
+
+
 def regenerate(sp, lean_dir):
     import os
     import subprocess
+    from vlib import leanproof
     cc = T.crosscheck(sp)
+    srcdir, effects, verdict = source_effects(sp)
+    inconsistent = [n for n in effects if not verdict[n][0] and T.PUBLIC_NAME(n) in set(cc['public'])]
+    present = [e for n, e in effects.items() if T.PUBLIC_NAME(n) in set(cc['public'])]   # (a stale entry is not in OpId)
+    cov = {'full': sum(e.coverage == 'full' for e in present),
+           'partial': sum(e.coverage == 'partial' for e in present),
+           'none': sum(e.coverage == 'none' for e in present)}
     gdir = os.path.join(lean_dir, 'Splipy', 'Generated')
     os.makedirs(gdir, exist_ok=True)
-    files = {'C11.lean': T.lean_table_source(cc['public']), 'C11Obligations.lean': T.lean_obligations_source()}
+    files = {'C11.lean': T.lean_table_source(cc['public'], effects, inconsistent),
+             'C11Obligations.lean': T.lean_obligations_source(cov)}
     for name, src in files.items():
         p = os.path.join(gdir, name)
         if not os.path.exists(p) or open(p).read() != src:
@@ -622,11 +652,9 @@ def regenerate(sp, lean_dir):
     r = subprocess.run(['lake', 'build', 'Splipy.Generated.C11Obligations'], cwd=lean_dir, stdout=subprocess.PIPE,
                        stderr=subprocess.STDOUT, text=True)
     built = r.returncode == 0
-    thms = ['C11_contract_table_total', 'C11_contract_table_enumeration_complete', 'C11_contract_table_contracts_modelled']
-    from vlib import leanproof
-    axioms = {}
-    if built:
-        axioms = leanproof.print_axioms('Splipy.Generated.C11Obligations', thms)
+    thms = ['C11_contract_table_total', 'C11_contract_table_enumeration_complete', 'C11_contract_table_contracts_modelled',
+            'C11_contracts_consistent_with_source', 'C11_source_inconsistencies_confirmed', 'C11_source_check_coverage']
+    axioms = leanproof.print_axioms('Splipy.Generated.C11Obligations', thms) if built else {}
 
     def thm_ok(n):
         return built and axioms.get(n) is not None and set(axioms[n]) <= leanproof.ALLOWED_AXIOMS
@@ -637,6 +665,7 @@ def regenerate(sp, lean_dir):
         if axioms.get(n) is None:
             return 'theorem did not check'
         return 'axioms: %s' % axioms[n]
+    unlabelled = [n for n in inconsistent if n not in SOURCE_FINDING_CLASS]
     obligations = [
         {'name': 'C11_contract_table_total', 'ok': thm_ok('C11_contract_table_total') and not cc['missing'],
          'detail': ('public operations without a table entry: %s' % cc['missing']) if cc['missing'] else thm_detail('C11_contract_table_total')},
@@ -646,9 +675,45 @@ def regenerate(sp, lean_dir):
          'detail': thm_detail('C11_contract_table_contracts_modelled')},
         {'name': 'C11_contract_table_not_stale', 'ok': not cc['stale'],
          'detail': ('table entries whose operation no longer exists: %s' % cc['stale']) if cc['stale'] else ''},
+        {'name': 'C11_contracts_consistent_with_source', 'ok': thm_ok('C11_contracts_consistent_with_source') and not unlabelled,
+         'detail': ('; '.join('%s (%s, %s): %s' % (n, T.BY_NAME[n].kind, effects[n].where, verdict[n][1]) for n in unlabelled)
+                    if unlabelled else thm_detail('C11_contracts_consistent_with_source')
+                    + ' — %d contracts checked against the source completely, %d partly, %d not analysed' % (cov['full'], cov['partial'], cov['none']))},
+        {'name': 'C11_source_inconsistencies_confirmed', 'ok': thm_ok('C11_source_inconsistencies_confirmed'),
+         'detail': thm_detail('C11_source_inconsistencies_confirmed')},
+        {'name': 'C11_source_check_coverage', 'ok': thm_ok('C11_source_check_coverage'),
+         'detail': thm_detail('C11_source_check_coverage') + ' full=%(full)d partial=%(partial)d none=%(none)d' % cov},
     ]
+    for n in inconsistent:
+        if n in SOURCE_FINDING_CLASS:
+            obligations.append({'name': 'C11_source_consistent[%s]' % n, 'ok': False, 'class': SOURCE_FINDING_CLASS[n],
+                                'detail': '%s (%s, %s): %s; first store %s' % (n, T.BY_NAME[n].kind, effects[n].where, verdict[n][1],
+                                                                              effects[n].why)})
+    if _tier() == 'thorough':
+        from . import _c11_effects as E
+        st = E.selftest(srcdir, T.TABLE, T.BY_NAME)
+        obligations.append({'name': 'C11_effect_inference_selftest', 'ok': st['ok'],
+                            'detail': '%d/%d synthetic contract violations planted in a copy of the sources are flagged; missed: %s; not applicable: %s'
+                                      % (st['flagged'], st['total'], st['missed'], st['not_applicable'])})
+    others = {n: effects[n].as_dict() for n in effects if effects[n].analysed and
+              [k for k in effects[n].stores if k not in effects[n].operands]}
     return {'module': 'Splipy.Generated.C11Obligations', 'public_operations': len(cc['public']),
             'table_entries': len(T.TABLE), 'contracted': sum(e.contracted for e in T.TABLE),
             'exempt': {k: sum(e.kind == k for e in T.TABLE) for k in T.EXEMPT},
             'missing': cc['missing'], 'stale': cc['stale'], 'obligations': obligations, 'axioms': axioms,
+            'source_dir': srcdir, 'source_check_coverage': cov,
+            'source_inconsistent': {n: verdict[n][1] for n in inconsistent},
+            'source_not_analysed': sorted(n for n, e in effects.items() if not e.analysed),
+            'source_partly_checked': {n: effects[n].unknown[:4] for n, e in effects.items() if e.coverage == 'partial'},
+            'stores_through_non_operand_parameters': {n: [k for k in d['stores'] if k not in d['operands']] for n, d in others.items()},
             'build_ok': built, 'build_log_tail': '' if built else r.stdout[-3000:]}
+
+
+def _tier():
+    import os
+    import sys
+    if '--tier' in sys.argv:
+        i = sys.argv.index('--tier')
+        if i + 1 < len(sys.argv):
+            return sys.argv[i + 1]
+    return os.environ.get('VERIF_TIER', 'quick')
